@@ -328,7 +328,7 @@ def rust_binding(kind, i, text):
             return parser_binding(i, text)
         except ValueError:
             return None
-    if kind in ("bytes", "str", "chars"):
+    if kind in ("bytes", "bytes_mut", "str", "chars"):
         src = text
         if kind == "chars":
             m = re.search(r"this_\s*:=\s*(\[[0-9,\s]*\])", text)
@@ -341,6 +341,8 @@ def rust_binding(kind, i, text):
         lit = "[" + ", ".join(f"{b}u8" for b in l) + "]"
         if kind == "bytes":
             return f"let a{i}: &[u8] = &{lit};"
+        if kind == "bytes_mut":
+            return f"let a{i}: Vec<u8> = vec!{lit};"
         if not _valid_utf8(l):
             return None
         return f"let a{i}_b: &[u8] = &{lit}; let a{i}: &str = std::str::from_utf8(a{i}_b).unwrap();"
@@ -410,6 +412,14 @@ def cmp_auto_entries():
             continue
         std = "a0 == a1" if name.startswith("eq_") else "a0.cmp(&a1)"
         out[name] = ([("typed", t) for t in terms], f"{x['rust']}(a0, a1)", std)
+    # `CmpWrapper<&[T]>::const_eq / const_cmp` (group Cmp6): the method behind `const_eq!` / `const_cmp!` on slices
+    for x in sigs:
+        m = re.fullmatch(r"CmpWrapper_slice_\w+\.(const_eq|const_cmp)", x.get("lean", "")) if x.get("kind") == "fn" else None
+        if m and len(x["params"]) == 2:
+            terms = [sig_type_term(p["rust"]) for p in x["params"]]
+            if all(terms):
+                out[x["lean"]] = ([("typed", t) for t in terms], f"konst::cmp::CmpWrapper(a0).{m.group(1)}(a1)",
+                                  "a0 == a1" if m.group(1) == "const_eq" else "a0.cmp(&a1)")
     return out
 
 
